@@ -73,7 +73,9 @@ class PIC:
         hit_case = random.randint(1, self.case_number)
         try:
             instrs = self.builder.build_pic_base_call(
-                offset=method_offset, hit_case=hit_case
+                offset=method_offset,
+                hit_case=hit_case,
+                hit_case_reg=self.hit_case_reg,
             )
         except BuilderException as err:
             logger.exception(err)
@@ -87,6 +89,7 @@ class PIC:
                 offset=offset,
                 call_trampoline_offset=call_trampoline_offset,
                 hit_case=hit_case,
+                hit_case_reg=self.hit_case_reg,
             )
         except BuilderException as err:
             logger.exception(err)
